@@ -16,6 +16,7 @@ for id in $ids; do
     if [ "$rc" = 1 ]; then clause=$(echo "$res" | grep -A1 '^VIOLATION property='$p | grep 'clause=' | head -1 | sed 's/^ *clause=//' | cut -c1-110); caught="$caught $p:[$clause]"; fi
     [ "$rc" = 2 ] && caught="$caught $p:BUILD-FAILED"
   done
+  echo "$res" | grep -q PATCH-DOES-NOT-APPLY && caught=" PATCH-DOES-NOT-APPLY (rebase the seed onto the current tree)"
   [ -z "$caught" ] && caught=" MISSED"
   echo "| $id | $prop | $tier |$caught |" | tee -a $tmp
 done
